@@ -204,10 +204,19 @@ def reader_reuse(ctx, report, rule="R-DOC-REUSE", clause="1"):
             docs = [W.write(fmt, W.caption_set(SETS[l])) for l in labels]
         except (FoldRaise, AnalysisError) as e:
             raise AnalysisError(f"{fmt}: the writer cannot be folded to make documents for the reader: {e}")
+        names = list(labels)
+        if fmt == "DFXP":
+            # documents no writer of the package produces: no alignment attributes anywhere, regions on div / p / span,
+            # a referenced style - the defaults the reader fills in must be the result's own objects too
+            from . import dfxp_reader_fold as _drf
+            for lab_, doc_, pretty_, _want in _drf.documents(False):
+                if lab_ in ("content 0", "regions on div, p and span", "begin + dur", "caption style reference"):
+                    docs.append(_drf.serialise(doc_, pretty_))
+                    names.append("hand-built: " + lab_)
         for k in range(len(docs)):
             a, b = docs[k], docs[(k + 1) % len(docs)]
             n += 1
-            case = {"reader": rname, "documents": [labels[k], labels[(k + 1) % len(docs)], labels[k]]}
+            case = {"reader": rname, "documents": [names[k], names[(k + 1) % len(docs)], names[k]]}
             try:
                 _, me = W._obj(path, rname)
                 read = cls.find_method("read")
@@ -234,6 +243,8 @@ def reader_reuse(ctx, report, rule="R-DOC-REUSE", clause="1"):
             else:
                 from .foldutil import captions_by_language
 
+                from .foldutil import mutable_ids as deep
+
                 def objs(r):
                     out = set()
                     for caps in captions_by_language(r, what="reader reuse").values():
@@ -244,8 +255,7 @@ def reader_reuse(ctx, report, rule="R-DOC-REUSE", clause="1"):
                             for holder in [c] + list(c.attrs["nodes"]):
                                 for k_ in ("style", "layout_info", "content"):
                                     v_ = holder.attrs.get(k_)
-                                    if isinstance(v_, (dict, list)) or (isinstance(v_, Stub) and v_.cls is not None):
-                                        out.add(id(v_))
+                                    deep(v_, out)
                     return out
                 if objs(r1) & objs(r3) or objs(r1) & objs(r2):
                     bad.append(dict(case, why="two results share caption / node objects"))
